@@ -48,7 +48,7 @@ claim("C04", "M", "SMT bounded model checking of MIR (z3 + cvc5 portfolio)",
       "Kernel level: payment-secret metadata packing/unpacking (construct_info_bytes <-> verify) and the amount / expiry / min-final-CLTV acceptance thresholds for all u64/u32/u16 inputs and all five methods, with the cryptography abstracted (decrypt = packed bytes, HMAC/preimage checks = arbitrary booleans); user-hash boundary cases replay through the real create_from_hash + verify. All-or-nothing claiming: claim_payment_internal (region from its entry to the start of the claim path, <= 2 parts) releases the preimage iff the parts still held add up to the recorded total; replayed on four live nodes. Unforgeability, MPP accumulation and what follows the start of the claim path are outside the claim.",
       "trusted: rustc MIR dump, engine_m, z3; crypto abstraction listed in the evidence")
 claim("C05", "M+K", "SMT bounded model checking of MIR with SHA-256 uninterpreted (z3 + cvc5); Kani/CBMC harnesses for slot arithmetic",
-      "Path level: FundedChannel::revoke_and_ack from its entry to the call that stores the secret - accepted iff the channel is operational, the secret derives the commitment point the peer announced (secp256k1 abstracted to match / no match) and a revocation is actually awaited; replayed on a live channel. Kernel level: the counterparty-secret store. Engine M (symbolic seed, uninterpreted hash, top m commitment indices in protocol order): every honest secret is accepted, every revoked index stays recoverable and equals the seed-derived secret, a secret that does not derive the stored lower secrets is refused and the store is unchanged. Engine K: place_secret for all u64, slot masks, get_min_seen_secret. The EC check of a secret against the announced commitment point and all call-sequence rules are outside the claim.",
+      "Path level: FundedChannel::revoke_and_ack from its entry to the call that stores the secret - accepted iff the channel is operational, the secret derives the commitment point the peer announced (secp256k1 abstracted to match / no match) and a revocation is actually awaited; replayed on a live channel; ChannelContext::validate_commitment_signed accepts only a fully signed commitment (commitment signature and exactly one valid signature per non-dust HTLC, <= 2 HTLCs, secp256k1 verification stubbed with free outcomes), replayed by altering a genuine commitment_signed. Kernel level: the counterparty-secret store. Engine M (symbolic seed, uninterpreted hash, top m commitment indices in protocol order): every honest secret is accepted, every revoked index stays recoverable and equals the seed-derived secret, a secret that does not derive the stored lower secrets is refused and the store is unchanged. Engine K: place_secret for all u64, slot masks, get_min_seen_secret. The EC check of a secret against the announced commitment point and all call-sequence rules are outside the claim.",
       "trusted: rustc MIR dump, engine_m, z3/cvc5, Kani/CBMC; native replay runs the same sequences with real SHA-256 on a fixed seed")
 claim("C12", "M+K", "Kani/CBMC bounded model checking of the codec primitives and TLV macros; SMT bounded model checking of MIR (z3 + cvc5) for writer/reader field wiring over an abstract TLV record stream",
       "Kernel level: codec primitives (ints, U48, BigSize, CollectionLength, HighZeroBytesDroppedBigSize, bool, Option) round-trip and canonical-form rejection for every input <= 10 bytes; FixedLengthReader bounds; the real TLV macros on a probe struct (ordering, required/unknown-even/odd rules, exact lengths, truncation) (Kani). Engine M: the persisted ClaimableHTLC (write_claimable_htlc vs its separately written reader), ChannelConfig and ChannelUpdateInfo read back with every field intact, for all field values and optional-field combinations, leaf codecs and byte lengths abstracted. Other large persisted objects are outside the claim.",
